@@ -190,6 +190,61 @@ def sigpipe_case(args):
         sc.close()
 
 
+def two_instances_case(args):
+    """life cycle: the same workflow program is started a second time in the same directory while the first instance's command
+    is still running (an impatient user, a cron job): whatever the second instance does -- it refuses -- the file that appears
+    at the declared output path is the complete output of a command that finished successfully"""
+    seed, i = args
+    import threading, time
+    rng = random.Random(seed * 86028233 + i)
+    sp = t3.Spec(maxtasks=2, bufsize=128)
+    d = rng.choice([6, 8, 10])
+    n = rng.randint(1, 2)
+    outs = []
+    for k in range(n):
+        sp.proc(t3.RawProc("slow%d" % k, "( echo begin; sleep 0.%d; echo end ) > {o:out}" % d, ins=[], outs=[("out", "slow%d.txt" % k)]))
+        outs.append("slow%d.txt" % k)
+    sc = t3.Scratch()
+    try:
+        sc.plant(sp.files)
+        res = {}
+        def first():
+            res["a"] = t3.run_impl(sc, sp, timeout=60, hooks_on=False)
+        th = threading.Thread(target=first)
+        th.start()
+        time.sleep(d / 20.0 + rng.uniform(0.0, 0.1))          # about half way through the first instance's command
+        specp2 = None
+        sc2root = sc.root
+        # the second instance: same program, same directory (its bookkeeping files are kept apart from the first one's)
+        import subprocess, os as _os
+        spec2 = _os.path.join(sc.root, "SPEC2")
+        open(spec2, "w").write(sp.text(with_files=False))
+        env = dict(_os.environ, VERIF_TRACE=_os.path.join(sc.root, "trace2"), VERIF_RDV=_os.path.join(sc.root, "rdv2"))
+        env.pop("SCIPIPE_VERIF_LOG", None)
+        _os.makedirs(env["VERIF_RDV"], exist_ok=True)
+        p2 = subprocess.Popen([_os.path.join(vlib.BIN, "wfrun"), spec2], cwd=sc.work, env=env, stdout=subprocess.PIPE, stderr=subprocess.PIPE, text=True)
+        th.join()
+        problems = []
+        # the instant the first instance has ended (the second may still be running), and the end
+        for when in ("when the first instance ended", "when both had ended"):
+            fs = t3.snapshot_dir(sc.work)
+            for o in outs:
+                v = fs.get(o)
+                if v is not None and v[1] != "begin\nend\n" and not problems:
+                    problems.append(("partial-output", "two instances of the program in one directory (first exit %s): %s, %s holds %r, which is not the complete output of a command that finished" % (res["a"]["rc"], when, o, v[1])))
+            if when.startswith("when the first"):
+                try:
+                    p2.communicate(timeout=60)
+                except subprocess.TimeoutExpired:
+                    p2.kill(); p2.communicate()
+        if res["a"]["rc"] == 0 and any(o not in fs for o in outs):
+            problems.append(("output-missing", "the first instance reports success but %s is missing" % [o for o in outs if o not in fs]))
+        return {"spec": sp.text(), "bufsize": sp.bufsize, "problems": problems[:2], "point": None, "rc": res["a"]["rc"], "stderr": res["a"]["stderr"][-200:], "yield": None,
+                "ntasks": n, "wall": res["a"]["wall"], "kind": "two-instances"}
+    finally:
+        sc.close()
+
+
 def run(rep, tier, seed):
     proved = vlib.prove(rep, MODULE, THEOREMS)
     ok, msg = vlib.build_ocaml()
@@ -212,11 +267,12 @@ def run(rep, tier, seed):
     results += t3.run_many(kill_case, [(seed, i, 0) for i in range(40 if tier == "quick" else 1500)])
     results += t3.run_many(stale_case, [(seed, i) for i in range(16 if tier == "quick" else 300)])
     results += [r for r in t3.run_many(write_fault_case, [(seed, i) for i in range(8 if tier == "quick" else 120)]) if r]
+    results += t3.run_many(two_instances_case, [(seed, i) for i in range(4 if tier == "quick" else 40)])
     results += t3.run_many(sigpipe_case, [(seed, i) for i in range(4 if tier == "quick" else 40)])
     t3.report_t3(rep, MODULE, proved, results, "T3 crash-point / failure / SIGKILL enumeration")
     rep.cov["evaluations"] = len(results)
     rep.cov["distinct_nontrivial"] = len({(r["spec"], r["point"], r["kind"]) for r in results})
-    rep.cov["rule"] = "fault enumeration on workflows with a two-output task (sub-directory / modified names, additional file), a Go-function or shell task and a two-input join: the process group is killed at every hit of every hook point of Task.Execute, FinalizePaths, Process.Run, createTasks and runProcs (plus a sample of port / slot points); one task fails in each of five ways (shell) or four (Go function); the process group is SIGKILLed at a random instant while commands run; a write(2) of a Go-function task's output is made to fail (ENOSPC / EDQUOT / EIO, injected with strace); a writer with a streaming and a regular output is killed by SIGPIPE because its reader stops early; histories run / delete an output but keep its audit file / re-run with a command that fails after a partial write / run again as it is; after each, every file at a declared output path must be the complete output of a successful command of its task, and nothing else may have appeared outside the temp dirs; every (workflow, point, kind) is distinct and non-trivial"
+    rep.cov["rule"] = "fault enumeration on workflows with a two-output task (sub-directory / modified names, additional file), a Go-function or shell task and a two-input join: the process group is killed at every hit of every hook point of Task.Execute, FinalizePaths, Process.Run, createTasks and runProcs (plus a sample of port / slot points); one task fails in each of five ways (shell) or four (Go function); the process group is SIGKILLed at a random instant while commands run; a write(2) of a Go-function task's output is made to fail (ENOSPC / EDQUOT / EIO, injected with strace); the same program started a second time in the same directory while the first instance's command runs; a writer with a streaming and a regular output is killed by SIGPIPE because its reader stops early; histories run / delete an output but keep its audit file / re-run with a command that fails after a partial write / run again as it is; after each, every file at a declared output path must be the complete output of a successful command of its task, and nothing else may have appeared outside the temp dirs; every (workflow, point, kind) is distinct and non-trivial"
     rep.cov["samples"] = [{"point": results[5]["point"], "rc": results[5]["rc"]}, results[0]["spec"]]
     kinds = {}
     for r in results:
